@@ -512,7 +512,7 @@ func ruleOPT11(c *Ctx) {
 					continue
 				}
 				if callee := call.Call.StaticCallee(); callee != nil {
-					if fnPkgShort(callee) == "pkg" && strings.HasPrefix(callee.Name(), "Evaluate") {
+					if fnPkgShort(callee) == "pkg" && strings.HasPrefix(publicName(callee), "Evaluate") {
 						arith = call
 					}
 					if callee == assignFn {
@@ -558,7 +558,7 @@ func ruleOPT11(c *Ctx) {
 				flagOK[name] = "the assigned value is not the right-hand side's value"
 			}
 		default:
-			flagFunc[name] = arith.Call.StaticCallee().Name()
+			flagFunc[name] = publicName(arith.Call.StaticCallee())
 			okOperands := len(varEval) >= 1 && len(exprEval) == 1 && derivesFromValue(arith.Call.Args[0], varEval[0].Value()) && derivesFromValue(arith.Call.Args[1], exprEval[0].Value())
 			okResult := derivesFromValue(asg.Common().Args[1], arith)
 			switch {
@@ -1440,16 +1440,16 @@ func ruleASG5(c *Ctx) {
 		ms := p.SSA.MethodSets.MethodSet(types.NewPointer(named))
 		for i := 0; i < ms.Len(); i++ {
 			fn := p.SSA.MethodValue(ms.At(i))
-			if fn == nil || fn.Blocks == nil || fn.Synthetic != "" {
+			if fn == nil || fn.Blocks == nil || fn.Synthetic != "" || delegationWrapper[fn] {
 				continue
 			}
-			key := fmt.Sprintf("%s.%s keeps nothing in the node", typ, fn.Name())
+			key := fmt.Sprintf("%s.%s keeps nothing in the node", typ, publicName(fn))
 			ws := receiverRootedWrites(fn)
 			if len(ws) == 0 {
 				c.OK(key, p.Pos(fn.Pos()), "no store through the receiver")
 				continue
 			}
-			if fn.Name() == "AppendValue" {
+			if publicName(fn) == "AppendValue" {
 				c.OK(key, p.Pos(fn.Pos()), "AppendValue replaces the node's slice header by the appended slice (the one write a view needs)")
 				continue
 			}
